@@ -144,3 +144,23 @@ Proof.
     - intros p Hp. unfold spills. specialize (Hs p Hp). destruct (Z.ltb_spec lim (p_size p)); [lia|]. apply andb_false_r. }
   destruct (notemp_run ops s HN) as (H1 & _ & H3). split; assumption.
 Qed.
+
+(* acceptance depends on the declared total and UnzipSizeLimit only - never on UnzipXMLSizeLimit - and is monotone
+   in UnzipSizeLimit; the parts an accepted package presents are the same under any two XML limits *)
+Theorem accept_independent_of_xml_limit lim lim' sl ps :
+  (open_with lim sl ps = None <-> open_with lim' sl ps = None) /\
+  (forall sl', sl <= sl' -> open_with lim sl ps <> None -> open_with lim' sl' ps <> None) /\
+  (forall s s', open_with lim sl ps = Some s -> open_with lim' sl ps = Some s' ->
+                map pl_part (locs s) = map pl_part (locs s')).
+Proof.
+  split; [|split].
+  - destruct (Z.lt_ge_cases sl (total ps)) as [H|H].
+    + rewrite !open_reject by assumption. tauto.
+    + destruct (open_accept lim sl ps H) as [s Hs]. destruct (open_accept lim' sl ps H) as [s' Hs'].
+      rewrite Hs, Hs'. split; discriminate.
+  - intros sl' Hle Hacc. destruct (Z.lt_ge_cases sl (total ps)) as [H|H].
+    + exfalso. apply Hacc. now apply open_reject.
+    + destruct (open_accept lim' sl' ps ltac:(lia)) as [s' Hs']. rewrite Hs'. discriminate.
+  - intros s s' Hs Hs'. destruct (open_inv _ _ _ _ Hs) as (_ & _ & H1). destruct (open_inv _ _ _ _ Hs') as (_ & _ & H2).
+    now rewrite H1, H2.
+Qed.
